@@ -149,7 +149,7 @@ def cases(tier: str) -> List[Dict[str, Any]]:
     for b in bodies:
         for k in ("cond_input_pred", "cond_computed_pred", "switch2", "while_counter", "while_data_exit"):
             out.append({"kind": k, "body": b})
-        for lo in (0, 2):
+        for lo in (0, 2, -2):
             for n in (0, 1, 2, 3):
                 out.append({"kind": "fori_static", "body": b, "lower": lo, "n": n})
     scan_bodies = bodies if tier == "thorough" else ("pure", "tracer", "mixed_carry", "scatter")
